@@ -101,7 +101,7 @@ def deferred_temporaries(ctx, n):
         watches = ["base * %d.5" % i for i in range(1, nw + 1)]
         stage = rng.choice(["method_capture", "line_capture"])
         conf = {"fire_count": "-1", "fire_period": "0", "frame_type": "single_frame", "watches": watches, "stage": stage,
-                "log_msg": rng.choice([None, "v={base * 7.25} {base * 9.75}"])}
+                "log_msg": rng.choice([None, "v={base * 7.25} {base * 9.75}", "v={base * 7.25} {base * 9.75} {base * 1.75} {base * 2.75} {base * 3.75}"])}
         action = LocationAction("tp-cap", None, conf, LocationAction.ActionType.Snapshot)
         loc = FunctionLocation("m.py", "f", Location.Position.CAPTURE) if stage == "method_capture" else LineLocation("m.py", 7, Location.Position.CAPTURE)
         world.install([Trigger(loc, [action])])
@@ -109,6 +109,9 @@ def deferred_temporaries(ctx, n):
         world.event(fr, "call" if stage == "method_capture" else "line")
         fr.f_lineno = 9
         base = fr.f_locals["base"]
+        if rng.random() < 0.7:
+            import gc
+            gc.collect()       # the program runs on for a while: anything only held by finished agent contexts (cycles) is freed
         ret = [base * (j + 0.125) for j in range(nw + 4)]          # allocated AFTER the watches were evaluated
         world.event(fr, "return", ret)
         snaps = [p for w, _t, _i, p in world.log if w == "snapshot"]
